@@ -210,6 +210,9 @@ class KNNSubgraph(Subgraph):
         neighbours_idx = np.zeros(k + 1)
         max_distances = np.zeros(k)
 
+        # The density bound belongs to the arcs being created, not to the ones of a previous call
+        self.density = 0.0
+
         for i in range(self.n_nodes):
             distances.fill(c.FLOAT_MAX)
 
